@@ -17,14 +17,16 @@ import sys
 import tempfile
 import time
 import numpy as np
+from .common import patched as common_patched
 
-MODULES = []
+MODULES = ['dassh.reactor']
 PROPERTY = 'C06'
 FUNCTIONS = ['dassh.assembly:Assembly.clone', 'dassh.region_rodded:RoddedRegion.clone',
              'dassh.region_unrodded:SingleNodeHomogeneous.clone', 'dassh.region_unrodded:MultiNodeHomogeneous.clone',
              'dassh.region_unrodded:_RREquivalent.clone', 'dassh.material:Material.clone',
              'sweep methods of the region classes (modifies-sets)',
-             'dassh.reactor:Reactor._calculate_asm_temperatures (adiabatic arguments)']
+             'dassh.reactor:Reactor._calculate_asm_temperatures (adiabatic arguments)',
+             'dassh.reactor:Reactor._setup_asm_axial_mesh_req (per-assembly decisions)']
 ASSUMPTIONS = ['ownership analysis is attribute-level (first attribute below self) and syntactic: an attribute is fresh in '
                'the clone when the clone method (or a method it calls on the clone) assigns it a value that is not an alias '
                'of self.<attr>; it is mutated when a sweep method stores below it, calls a mutator on it, or calls on it a '
@@ -47,8 +49,78 @@ SWEEP = {
 }
 
 
+# ---------------------------------------------------------------------------------------
+# Reactor set-up decisions taken per assembly must not depend on the other assemblies
+class _RegFlag:
+    def __init__(self):
+        self._conv_approx = False
+
+
+class _AsmStub:
+    def __init__(self, i, rodded, n_reg=2):
+        self.id = i
+        self.has_rodded = rodded
+        self.region = [_RegFlag() for _ in range(n_reg)]
+        self._estimated_T_out = 700.0
+
+
+def mesh_req_independent(S, cfg):
+    """Reactor._setup_asm_axial_mesh_req: whether an assembly switches to the low-flow wall approximation, and the
+    step requirement recorded for it, are functions of that assembly's own step limit and limiting cell only"""
+    from dassh import reactor, assembly as A
+    import dassh
+    r = reactor.Reactor.__new__(reactor.Reactor)
+    dassh.logged_class.LoggedClass.__init__(r, 0, 'dassh.Reactor')
+    codes = cfg['codes']                # limiting subchannel code per assembly (first call)
+    rodded = cfg.get('rodded', [True] * len(codes))
+    n = len(codes)
+    r.assemblies = [_AsmStub(i, rodded[i]) for i in range(n)]
+    r.inlet_temp = 600.0
+    r._is_adiabatic = False
+    cutoff = S.pos('cutoff', 1e-4, 1e-2)
+    r._options = {'conv_approx': cfg.get('option', True), 'conv_approx_dz_cutoff': cutoff}
+    first = [S.pos(f'dz_first[{i}]', 1e-5, 1e-1) for i in range(n)]
+    second = [S.pos(f'dz_approx[{i}]', 1e-5, 1e-1) for i in range(n)]
+    calls = {}
+
+    def min_dz(asm, t1, t2, adiabatic):
+        k = calls.get(asm.id, 0)
+        calls[asm.id] = k + 1
+        approx = all(reg._conv_approx for reg in asm.region)
+        return (second[asm.id] if approx else first[asm.id]), (codes[asm.id] if not approx else '1-111')
+    r.log = lambda *a, **k: None
+    with common_patched((A, 'calculate_min_dz', min_dz)):
+        r._setup_asm_axial_mesh_req()
+    sym = S.mode == 'sym'
+    for i in range(n):
+        eligible = cfg.get('option', True) and ((codes[i][0] in '2367') if rodded[i] else True)
+        used = all(reg._conv_approx for reg in r.assemblies[i].region)
+        none_used = not any(reg._conv_approx for reg in r.assemblies[i].region)
+        below = first[i] < cutoff
+        if not eligible:
+            S.holds(f'req.approximation_only_when_eligible[{i}]', none_used)
+            S.eq(f'req.recorded_limit[{i}]', r.min_dz['dz'][i], first[i])
+        else:
+            # used iff this assembly's own limit is below the cut-off
+            if sym:
+                S.holds(f'req.approximation_iff_own_limit_below_cutoff[{i}]', (below & used) | ((~below) & none_used)
+                        if not isinstance(below, bool) else (used if below else none_used))
+            else:
+                S.holds(f'req.approximation_iff_own_limit_below_cutoff[{i}]', bool(used if below else none_used))
+            S.eq(f'req.recorded_limit[{i}]', r.min_dz['dz'][i], second[i] if used else first[i])
+    S.holds('req.one_entry_per_assembly', len(r.min_dz['dz']) == n and len(r.min_dz['sc']) == n)
+    S.holds('canary.req_everyone_approximated', all(all(reg._conv_approx for reg in a.region) for a in r.assemblies),
+            canary=True)
+
+
+mesh_req_independent.cname = 'Reactor._setup_asm_axial_mesh_req'
+mesh_req_independent.run_kw = dict(max_paths=200, check_div=False)
+
+
 def configs(tier):
-    return []
+    return [(mesh_req_independent, dict(codes=['3-22', '1-111', '2-122'])),
+            (mesh_req_independent, dict(codes=['6-66', '1-111', '7-66', '1-112'], rodded=[True, True, False, False])),
+            (mesh_req_independent, dict(codes=['3-22', '2-122'], option=False))]
 
 
 def _repo():
